@@ -3836,6 +3836,22 @@ class Interp:
                         return recv.with_(dims=tuple(labs_))
                 r_ = self._reshape_concrete(recv, sh_, e)
                 return r_ if r_ is not None else Unk('reshape', e)
+            if name == 'repeat' and len(args) == 1 and isinstance(kw.get('axis'), int) and not isinstance(kw.get('axis'), bool) and recv.mask is None:
+                # x.repeat(n, axis=k) along an axis of one position: that position n times - the value does not depend on the new axis
+                ax_ = kw['axis'] + recv.ndim if kw['axis'] < 0 else kw['axis']
+                n_ = self._as_arr(args[0])
+                lab_ = _len_label(n_.poly) if isinstance(n_, Arr) and n_.ndim == 0 else None
+                if 0 <= ax_ < recv.ndim and recv.dims[ax_] is None and lab_ is not None and lab_ not in recv.dims:
+                    return recv.with_(dims=tuple(lab_ if k_ == ax_ else d_ for k_, d_ in enumerate(recv.dims)))
+                if 0 <= ax_ < recv.ndim and recv.dims[ax_] is None and isinstance(args[0], int) and not isinstance(args[0], bool) and 1 <= args[0] <= 64:
+                    if args[0] == 1:
+                        return recv
+                    self._n_lists = getattr(self, '_n_lists', 0) + 1
+                    lab_ = 'rep#%d' % self._n_lists          # a concrete number of copies: an axis that only counts them
+                    self.axis_len[lab_] = args[0]
+                    return recv.with_(dims=tuple(lab_ if k_ == ax_ else d_ for k_, d_ in enumerate(recv.dims)))
+            if name == 'ravel' and not args and recv.ndim <= 1:
+                return recv          # (a 1-d array, or a scalar array, flattened: itself)
             if name == 'argsort':
                 return self.libcall('numpy.argsort', [recv], kw, e, mod)
             if name == 'argmin' or name == 'argmax':
